@@ -256,4 +256,235 @@ def _cds_ok(f, m, table):
     return q.get("codon_start") == str(f0 + 1)
 
 
-CASES = [LocationToStr(1), LocationToStr(2), LocationToStr(3), TblFile()]
+def sink_text(h):
+    return "".join(h.attrs["$lines"]) if hasattr(h, "attrs") else h.getvalue()
+
+
+class TblCollectionText(Case):
+    """collection_to_tbl executed in the verifier on the complete domain below, the WRITTEN TEXT read back by the
+    independent 5-column reader of this module: headers name the sequences in order; every gene / mRNA / CDS / RNA
+    feature lists exactly the source blocks, 1-based inclusive, 5' -> 3' (adjacent CDS / exon blocks of coding
+    transcripts merged, as NCBI requires); feature kinds per biotype and flavour (no mRNA rows in the prokaryotic
+    flavour; rRNA / tRNA / ncRNA for the non-coding biotypes); locus tags unique and increasing by the requested step
+    across collections; partial marks and codon_start of CDS rows (same oracle as the bounded file case).
+    Domain: two collections of two genes each, drawn from 4 exon layouts (1 exon, 2 exons, 2 adjacent exons, 3 exons) x
+    both strands x {coding with start frame 0 / 1 / 2 over a fixed genome, rRNA, tRNA, lncRNA}; both flavours; steps
+    1 and 5."""
+    props = ("C17",)
+    func = TBL + "collection_to_tbl"
+    module = "io.ncbi.tbl_writer"
+    call = ("(collection_to_tbl(cols, sink, translation_table=TranslationTable[table], locus_tag_prefix='LT', "
+            "genbank_flavor=GenbankFlavor[flavor], locus_tag_jump_size=step, submitter_lab_name='lab', random_seed=seed), "
+            "sink)")
+
+    def __init__(self, flavor, part):
+        self.flavor, self.part = flavor, part
+        self.name = f"collection_to_tbl[written text read back, {flavor}, domain part {part}]"
+        P = lambda r: read_tbl(sink_text(r[1]))  # noqa
+        self.ensures = {
+            "headers-name-the-sequences": lambda i, r: [h for h, _ in P(r)] == ["contigA", "contigB"],
+            "gene-rows-5p-to-3p": lambda i, r: all(_gene_ok(f, m) for (_h, feats), ms in zip(P(r), i.models)
+                                                   for f, m in zip([x for x in feats if x["type"] == "gene"], ms)),
+            "feature-kinds-per-biotype-and-flavour": lambda i, r: all(
+                [x["type"] for x in feats] == [t for m in ms for t in _kinds(m, i.flavor)]
+                for (_h, feats), ms in zip(P(r), i.models)),
+            "transcript-rows-list-the-source-blocks": lambda i, r: all(
+                _tx_ok(f, m) for (_h, feats), ms in zip(P(r), i.models)
+                for f, m in zip([x for x in feats if x["type"] in ("mRNA", "rRNA", "tRNA", "ncRNA", "misc_RNA")],
+                                [m for m in ms if not (m["cds"] and i.flavor == "PROKARYOTIC")])),
+            "locus-tags-unique-and-stepping": lambda i, r: [dict(f["quals"]).get("locus_tag") for _h, feats in P(r)
+                                                            for f in feats if f["type"] == "gene"] == [
+                f"LT_{(k + 1) * i.step}" for k in range(sum(len(ms) for ms in i.models))],
+            "cds-rows-partials-codon-start": lambda i, r: all(
+                _cds_ok(f, m, i.table) for (_h, feats), ms in zip(P(r), i.models)
+                for f, m in zip([x for x in feats if x["type"] == "CDS"], [m for m in ms if m["cds"]])),
+        }
+
+    def inputs(self, S):
+        fn = S.fn("io.parser.seq_to_parent")
+        cols, models = [], []
+        if S.mode == "native":
+            from inscripta.biocantor.gene.biotype import Biotype
+            B = lambda n: Biotype[n]  # noqa
+        else:
+            mod = S.e.repo.module("gene.biotype")
+            BT = S.e.global_value(S.e.repo.resolve_global(mod, "Biotype"), mod)
+            B = lambda n: S.e.getattr(BT, n)  # noqa
+        FR = lambda k: S.enum_const("gene.cds_frame.CDSFrame", ["ZERO", "ONE", "TWO"][k % 3])  # noqa
+        for name, genes in zip(("contigA", "contigB"), S.const("genes")):
+            parent = (fn(GENOME, seq_id=name) if S.mode == "native" else S.e.call(fn, [GENOME], {"seq_id": name}))
+            gs, ms = [], []
+            for gi, (blocks, strand, kind, f0) in enumerate(genes):
+                blocks = [tuple(b) for b in blocks]
+                st = S.enum_const("location.strand.Strand", strand)
+                kw, cb = {}, None
+                if kind == "coding":
+                    cb = list(blocks)
+                    # frames of one uninterrupted reading frame starting with frame f0 at the 5' end
+                    order = cb if strand == "PLUS" else cb[::-1]
+                    fr, done = [], 0
+                    for s_, e_ in order:
+                        fr.append(FR(f0 - done))
+                        done += e_ - s_
+                    if strand == "MINUS":
+                        fr = fr[::-1]
+                    kw = dict(cds_starts=[b[0] for b in cb], cds_ends=[b[1] for b in cb], cds_frames=fr)
+                bt = B("protein_coding" if kind == "coding" else kind)
+                tx = S.new("gene.transcript.TranscriptInterval", [b[0] for b in blocks], [b[1] for b in blocks], st,
+                           transcript_id=f"t{gi}", sequence_name=name, parent_or_seq_chunk_parent=parent,
+                           transcript_type=bt, **kw)
+                gs.append(S.new("gene.gene.GeneInterval", [tx], gene_id=f"g{gi}", gene_symbol=f"sym{name}{gi}",
+                                sequence_name=name, gene_type=bt, parent_or_seq_chunk_parent=parent))
+                ms.append(dict(blocks=blocks, strand=strand, cds=cb, f0=f0, kind=kind))
+            cols.append(S.new("gene.collections.AnnotationCollection", genes=gs, sequence_name=name,
+                              parent_or_seq_chunk_parent=parent))
+            models.append(ms)
+        return NS(cols=cols, models=models, flavor=self.flavor, step=S.const("step"), seed=S.const("seed"),
+                  table=S.const("table"), sink=S.text_sink(), collection_to_tbl=S.fn(TBL + "collection_to_tbl"),
+                  GenbankFlavor=S.cls("io.genbank.constants.GenbankFlavor"), TranslationTable=S.cls("gene.codon.TranslationTable"))
+
+    def ground(self):
+        layouts = [[(2, 23)], [(2, 11), (14, 23)], [(3, 12), (12, 24)], [(1, 8), (10, 20), (25, 40)]]
+        genes = []
+        for bl in layouts:
+            for strand in ("PLUS", "MINUS"):
+                for f0 in (0, 1, 2):
+                    genes.append([bl, strand, "coding", f0])
+                for kind in ("rRNA", "tRNA", "lncRNA"):
+                    genes.append([bl, strand, kind, 0])
+        pairs = [genes[k:k + 2] for k in range(0, len(genes) - 1, 2)]
+        quads = list(zip(pairs, pairs[1:] + pairs[:1]))
+        for k, (a, b) in enumerate(quads):
+            if k % 2 != self.part:
+                continue
+            step, seed, table = ((1, 0, "DEFAULT"), (5, 7, "PROKARYOTE"))[(k // 2) % 2]
+            yield dict(genes=[a, b], step=step, seed=seed, table=table)
+
+    def observe(self, r):
+        import re
+        # the random part of the generated protein / transcript ids is not observed (stubbed in the verifier)
+        return re.sub(r"gnl\|lab\|[A-Z]{12}", "gnl|lab|*", sink_text(r[1]))
+
+
+def _kinds(m, flavor):
+    if m["cds"]:
+        return ["gene", "CDS"] if flavor == "PROKARYOTIC" else ["gene", "mRNA", "CDS"]
+    return ["gene", {"rRNA": "rRNA", "tRNA": "tRNA"}.get(m["kind"], "ncRNA")]
+
+
+def _tx_ok(f, m):
+    # coding transcripts: exon blocks separated by a 0 bp gap are merged (NCBI); non-coding ones list the exons as given
+    blocks = _merge_adjacent(m["blocks"]) if m["cds"] else m["blocks"]
+    pairs = [(s + 1, e) for s, e in blocks]
+    if m["strand"] == "MINUS":
+        pairs = [(b, a) for a, b in pairs][::-1]
+    return [(_strip(a), _strip(b)) for a, b in f["rows"]] == pairs
+
+
+class TblGeneFlags(Case):
+    """TblGene on the complete domain of single-transcript coding genes (one exon with 1-base UTRs, CDS possibly listed
+    as two ADJACENT blocks; start frame 0 / 1 / 2; 3 codons over {ATG, TTG, AAA, TAA}; 0-1 trailing bases; both
+    strands; tables DEFAULT and PROKARYOTE), executed in the verifier: codon_start = start frame + 1, the 5' partial
+    mark iff the first IN-FRAME codon is not a start codon of the table, the 3' partial mark iff the CDS does not end
+    on a complete stop codon, /pseudo iff a stop codon precedes the last codon; the mRNA row carries the same marks;
+    gene row without marks; rows are 1-based, 5' -> 3', adjacent CDS blocks merged."""
+    props = ("C17",)
+    func = TBL + "TblGene.__init__"
+    module = "io.ncbi.tbl_writer"
+    call = ("(lambda g: (lambda gene, mrna, cds: ("
+            "cds.qualifiers['codon_start'], cds.start_is_incomplete, cds.end_is_complete, cds.is_pseudo, "
+            "mrna.start_is_incomplete, mrna.end_is_complete, mrna.is_pseudo, gene.start_is_incomplete, gene.end_is_complete, "
+            "cds._location_to_str(), mrna._location_to_str(), gene._location_to_str(), gene.is_pseudo))"
+            "(g.gene_tbl, g.gene_tbl.children[0], g.gene_tbl.children[0].children[0]))"
+            "(TblGene(gene, 'lab', 'LT_1', TranslationTable[table]))")
+
+    def __init__(self, plus, table, split):
+        self.plus, self.table, self.split = plus, table, split
+        self.name = (f"TblGene[flags, codon_start and rows: {'plus' if plus else 'minus'} strand, table {table}, "
+                     f"{'CDS listed as two adjacent blocks' if split else 'one CDS block'}; all frames x 3-codon sequences]")
+
+    ensures = {
+        "codon-start-is-start-frame-plus-one": lambda i, r: r[0] == [i.f + 1],
+        "5p-partial-iff-first-in-frame-codon-is-no-start": lambda i, r: r[1] == (i.codons[0] not in _TSTARTS[i.table]),
+        "3p-partial-iff-no-complete-stop-codon-at-the-end": lambda i, r: r[2] == (not (i.trail == 0 and i.codons[-1] == "TAA")),
+        "pseudo-iff-stop-before-the-last-codon": lambda i, r: r[3] == ("TAA" in i.codons[:-1]) and r[12] == r[3],
+        "mrna-carries-the-cds-marks": lambda i, r: (r[4], r[5], r[6]) == (r[1], r[2], r[3]),
+        "gene-row-without-marks": lambda i, r: (r[7], r[8]) == (False, False),
+        "rows-one-based-5p-to-3p-adjacent-blocks-merged": lambda i, r: (
+            _rows(r[9]) == _pair(i.cs, i.ce, i.plus) and _rows(r[10]) == _pair(i.cs - 1, i.ce + 1, i.plus)
+            and _rows(r[11]) == _pair(i.cs - 1, i.ce + 1, i.plus)),
+    }
+
+    def inputs(self, S):
+        codons = list(S.const("codons"))
+        plus, f, trail, table, split = S.const("plus"), S.const("frame"), S.const("trail"), S.const("table"), S.const("split")
+        text = "G" * f + "".join(codons) + "C" * trail
+        if not plus:
+            text = "".join({"A": "T", "C": "G", "G": "C", "T": "A"}[ch] for ch in reversed(text))
+        genome = "CCC" + text + "GGG"
+        cs, ce = 3, 3 + len(text)
+        fn = S.fn("io.parser.seq_to_parent")
+        par = fn(genome, seq_id="chr1") if S.mode == "native" else S.e.call(fn, [genome], {"seq_id": "chr1"})
+        strand = S.enum_const("location.strand.Strand", "PLUS" if plus else "MINUS")
+        F = lambda k: S.enum_const("gene.cds_frame.CDSFrame", ["ZERO", "ONE", "TWO"][k % 3])  # noqa
+        if split:
+            cut = cs + 4
+            cds_starts, cds_ends = [cs, cut], [cut, ce]
+            # frames of the two blocks in coordinate order for one uninterrupted reading frame starting with frame f
+            if plus:
+                frames = [F(f), F(f - (cut - cs))]
+            else:
+                frames = [F(f - (ce - cut)), F(f)]
+        else:
+            cds_starts, cds_ends, frames = [cs], [ce], [F(f)]
+        if S.mode == "native":
+            from inscripta.biocantor.gene.biotype import Biotype
+            PC = Biotype["protein_coding"]
+        else:
+            mod = S.e.repo.module("gene.biotype")
+            PC = S.e.getattr(S.e.global_value(S.e.repo.resolve_global(mod, "Biotype"), mod), "protein_coding")
+        tx = S.new("gene.transcript.TranscriptInterval", [cs - 1], [ce + 1], strand, cds_starts=cds_starts,
+                   cds_ends=cds_ends, cds_frames=frames, transcript_id="t1", transcript_type=PC,
+                   parent_or_seq_chunk_parent=par)
+        gene = S.new("gene.gene.GeneInterval", [tx], gene_id="g1", gene_symbol="sym", gene_type=PC,
+                     parent_or_seq_chunk_parent=par)
+        return NS(gene=gene, codons=codons, f=f, trail=trail, table=table, plus=plus, cs=cs, ce=ce,
+                  TblGene=S.cls(TBL + "TblGene"), TranslationTable=S.cls("gene.codon.TranslationTable"))
+
+    def ground(self):
+        import itertools
+        for cs in itertools.product(("ATG", "TTG", "AAA", "TAA"), repeat=3):
+            for f in (0, 1, 2):
+                for trail in (0, 1):
+                    yield dict(codons=list(cs), plus=self.plus, frame=f, trail=trail, table=self.table, split=self.split)
+
+    def observe(self, r):
+        return [list(r[0])] + [x for x in r[1:]]
+
+
+_TSTARTS = {"DEFAULT": {"ATG"}, "PROKARYOTE": {"ATG", "TTG", "GTG", "CTG", "ATT", "ATC", "ATA"}}
+
+
+def _rows(text):
+    return [tuple(int(x.lstrip("<>")) for x in line.split("\t")[:2]) for line in str(text).split("\n") if line.strip()]
+
+
+def _pair(s, e, plus):
+    return [(s + 1, e)] if plus else [(e, s + 1)]
+
+
+CASES = [*[TblCollectionText(fl, part) for fl in ('EUKARYOTIC', 'PROKARYOTIC') for part in (0, 1)],
+         TblGeneFlags(True, 'DEFAULT', False), TblGeneFlags(False, 'PROKARYOTE', True), TblGeneFlags(False, 'DEFAULT', False),
+         TblGeneFlags(True, 'PROKARYOTE', True), LocationToStr(1), LocationToStr(2), LocationToStr(3), TblFile()]
+
+CANARIES = [
+    dict(name="tbl: 3' partial mark needs both conditions", props=("C17",), file="inscripta/biocantor/io/ncbi/tbl_writer.py",
+         old="!= (codon_start - 1) or not transcript.cds.has_valid_stop",
+         new="!= (codon_start - 1) and not transcript.cds.has_valid_stop",
+         case=TblGeneFlags(True, 'DEFAULT', False).name, expect="post:3p-partial-iff-no-complete-stop-codon-at-the-end"),
+    dict(name="tbl: pseudo flag only looks at the first transcript's first codon", props=("C17",),
+         file="inscripta/biocantor/io/ncbi/tbl_writer.py",
+         old="is_pseudo = any(tx.has_in_frame_stop for tx in gene.transcripts)",
+         new="is_pseudo = any(tx.has_in_frame_stop and False for tx in gene.transcripts)",
+         case=TblGeneFlags(False, 'PROKARYOTE', True).name, expect="post:pseudo-iff-stop-before-the-last-codon"),
+]
